@@ -102,9 +102,11 @@ Judge(e) ==
      ELSE <<"fail", "a pair's reported score differs from the score recomputed from the letters">>)
   ELSE IF Recomputed(e) = Optimum(e) THEN <<"ok", "">>
   ELSE IF Recomputed(e) > Optimum(e) THEN <<"fail", "SPEC: alignment scores above the specification's optimum">>
+  \* by cause: the optimum of the three-state model with the right start and end states first, then the
+  \* further restrictions of the local and fitted variants
+  ELSE IF Affine(e) /\ Recomputed(e) = Restricted(e) THEN <<"known", "C08/" \o e.aligner \o "/no-adjacent-opposite-gaps">>
   ELSE IF e.aligner = "SWAffine" /\ Recomputed(e) = AsFoundTotal(e) THEN <<"known", "C08/SWAffine/end-cell-needs-diagonal-predecessor">>
   ELSE IF e.aligner = "FittedAffine" /\ Recomputed(e) = AsFoundTotal(e) THEN <<"known", "C08/FittedAffine/start-and-end-states-restricted">>
-  ELSE IF Affine(e) /\ Recomputed(e) = Restricted(e) THEN <<"known", "C08/" \o e.aligner \o "/no-adjacent-opposite-gaps">>
   ELSE <<"fail", "total score is below the optimum">>
 
 Step ==
